@@ -91,6 +91,10 @@ func c22Thread(name string, op c22Op, wid string) schedThread {
 			err = cal.RemovePod(ctx, op.Pod)
 		case "addnode":
 			_, err = cal.AddNode(ctx, world.NodeSpec{Name: op.Node, Pod: op.Pod, CPU: 2, Memory: 200, Test: true}.Options())
+		case "addnode-bare":
+			o := world.NodeSpec{Name: op.Node, Pod: op.Pod, Test: true}.Options()
+			o.Resources = nil
+			_, err = cal.AddNode(ctx, o)
 		case "removenode":
 			err = cal.RemoveNode(ctx, op.Node)
 		case "create":
@@ -129,7 +133,7 @@ func c22Explore(t *testing.T, c *vcore.Ctx) {
 	if dir == "" {
 		dir = t.TempDir()
 	}
-	c.SetRule("two API calls as concurrent threads over pods p{n1,n2 with one workload on n2}, q{}, r{n4, down}: pairs drawn from {add-pod, remove-pod, add-node, remove-node, create, remove} on overlapping names; every interleaving of their etcd/engine requests within the preemption bound; the pod-level scenarios also on the Redis store; oracle when both have returned; non-trivial = schedules with at least one switch between the threads while both were enabled")
+	c.SetRule("two API calls as concurrent threads over pods p{n1,n2 with one workload on n2}, q{}, r{n4, down}: pairs drawn from {add-pod, remove-pod, add-node (with explicit resources or with the capacity taken from the engine), remove-node, create, remove} on overlapping names; every interleaving of their etcd/engine requests within the preemption bound; the pod-level scenarios also on the Redis store; oracle when both have returned; non-trivial = schedules with at least one switch between the threads while both were enabled")
 	c.Assume("etcd = memetcd (conformance-checked); both calls run on one core instance (locks are distributed, so this equals two instances sharing the store)")
 	b := world.NewBackend(dir, true)
 	defer b.Close()
@@ -172,12 +176,14 @@ func c22Explore(t *testing.T, c *vcore.Ctx) {
 		{{Kind: "remove"}, {Kind: "removenode", Node: "n2"}},
 		{{Kind: "addnode", Pod: "p", Node: "n3"}, {Kind: "addnode", Pod: "p", Node: "n3"}},
 		{{Kind: "removenode", Node: "n1"}, {Kind: "removenode", Node: "n1"}},
-		{{Kind: "addpod", Pod: "r"}, {Kind: "addnode", Pod: "r", Node: "n3"}},
+		{{Kind: "addpod", Pod: "s"}, {Kind: "addnode", Pod: "s", Node: "n3"}},
 		{{Kind: "create", Node: "n1"}, {Kind: "remove"}},
 		{{Kind: "removepod", Pod: "q"}, {Kind: "addpod", Pod: "q"}},
 		// a pod whose only node is down must not be removed
 		{{Kind: "removepod", Pod: "r"}},
 		{{Kind: "removepod", Pod: "r"}, {Kind: "removenode", Node: "n4"}},
+		// a node added without explicit resources (capacity taken from the engine) to a pod that may not exist yet
+		{{Kind: "addpod", Pod: "s"}, {Kind: "addnode-bare", Pod: "s", Node: "n3"}},
 	}
 	type job struct {
 		ops []c22Op
